@@ -136,7 +136,7 @@ def gen(item, rng, tier):
                 rt = rng.randrange(0, 6)
                 slots.append({'t': 'ldr_deny' if load else 'str_deny', 'w': T.ldst_imm('ldr' if load else 'str', rt, 7, rng.randrange(0, 8)), 'rt': rt})
             continue
-        choices = ['mov', 'mov', 'dp16', 'dp16', 'dp16', 'movw', 'addw', 'str', 'ldr']
+        choices = ['mov', 'mov', 'dp16', 'dp16', 'dp16', 'movw', 'addw', 'str', 'ldr', 'mrs']
         if not (kind == 'udf' and special is not None and i < special):
             choices.append('cmp')           # a CMP before the UDF slot would invalidate its static pass/fail
         if last and rng.random() < 0.3:
@@ -164,6 +164,8 @@ def gen(item, rng, tier):
             slots.append({'t': 'mov', 'w': T.mov_w(rd, imm), 'rd': rd, 'imm': imm})
         elif t == 'addw':
             slots.append({'t': 'chg', 'w': T.add_w(rd, rd, 0x11 + i), 'rd': rd})
+        elif t == 'mrs':
+            slots.append({'t': 'chg', 'w': T.mrs(rd), 'rd': rd, 'name': 'mrs', 'nonvacuous': rd not in written_before})        # 32-bit system instruction: conditional like any other
         elif t == 'cmp':
             slots.append({'t': 'cmp', 'w': T.cmp_imm(rd, rng.choice([0, 0x10, 0xFF, regs0[rd] & 0xFF]))})
             flags_static = False
